@@ -1,10 +1,39 @@
-(* C02 -- slab pool: realloc/free semantics, content stability, bounded footprint. *)
+(* C02 -- slab pool: realloc/free semantics, content stability, bounded footprint.
+   Contents of a live block = the log of its owner's writes ([contents s p i] = byte at offset i, None = indeterminate);
+   the pool's memcpy is modelled as the transfer of that log (the harness compares real bytes against canaries). *)
 From Coq Require Import List NArith Bool.
-From FV Require Import Slab.SlabModel Slab.SlabBasics.
+From FV Require Import Slab.SlabModel Slab.SlabBasics Slab.SlabInv Slab.SlabC01 Slab.SlabC02.
 Import ListNotations.
 Local Open Scope N_scope.
 
-(* the special cases of realloc/free/deallocate, for every state *)
+(* realloc(p, n), p live, n > 0, at the end of any admissible history:
+   - n <= get_size(p): returns p; the first n bytes of p are unchanged; every other block, the mapped regions and
+     used_pages are unchanged (nothing was freed, nothing mapped);
+   - n > get_size(p): either null with the state EQUAL to the state before (only when the policy's map failed), or a
+     block q <> p whose contents are those of p at every offset (so in particular the first min(old,new) bytes), p is
+     no longer live and every other block is untouched. *)
+Theorem C02_realloc_spec :
+  forall (c : cfg) (ops : list op) (p n : N) (e : env) (b : blk),
+    cfg_ok c = true ->
+    policy_ok c (ops ++ [Realloc p n e]) -> api_ok c (ops ++ [Realloc p n e]) -> history_short (ops ++ [Realloc p n e]) ->
+    let s := run c ops in
+    let x := step c s (Realloc p n e) in
+    find_blk p (live s) = Some b -> n <> 0 ->
+    (n <= size_of c s p ->
+       res_of x = RPtr p
+       /\ (forall i, i < n -> contents (st_of x) p i = contents s p i)
+       /\ (forall q, q <> p -> find_blk q (live (st_of x)) = find_blk q (live s))
+       /\ mapped (st_of x) = mapped s /\ used (st_of x) = used s)
+    /\ (size_of c s p < n ->
+        (res_of x = RNull /\ st_of x = s /\ env_ret e = 0)
+        \/ exists q, res_of x = RPtr q /\ q <> p
+             /\ find_blk p (live (st_of x)) = None
+             /\ (forall i, contents (st_of x) q i = contents s p i)
+             /\ (forall q', q' <> p -> q' <> q -> find_blk q' (live (st_of x)) = find_blk q' (live s))).
+Proof. exact C02_realloc_main. Qed.
+Print Assumptions C02_realloc_spec.
+
+(* the special cases, for every state *)
 Theorem C02_null_and_zero_cases :
   forall c s,
     (forall n e, step c s (Realloc 0 n e) = step c s (Alloc n e))
@@ -21,7 +50,39 @@ Proof.
 Qed.
 Print Assumptions C02_null_and_zero_cases.
 
+(* Footprint, after every prefix of every admissible (single-threaded) history, per size class i:
+   slabs ever mapped for the class <= ceil(peak live blocks of the class / blocks per slab), where
+   [nlive_of] = blocks of the class handed out and not returned (= all objects of the class's slabs minus those on free
+   lists, third conjunct) and [peak_of] = the running maximum of [nlive_of] (ghost, raised in hand_out only).
+   Key fact (fourth conjunct): a slab is mapped only when the partial tree of the class is empty, and then no object of
+   the class is free.  Hence steady alloc/free cycles below the peak map nothing new. *)
+Theorem C02_footprint :
+  forall (c : cfg) (ops : list op),
+    cfg_ok c = true -> policy_ok c ops -> api_ok c ops -> history_short ops ->
+    forall pre, prefix pre ops ->
+    let s := run c pre in
+    forall i, i < nbuckets c ->
+      cnum s i <= (peak_of s i + nobj c (b2s i) - 1) / nobj c (b2s i)
+      /\ nlive_of s i <= peak_of s i
+      /\ nlive_of s i + cfree s i = cnum s i * nobj c (b2s i)
+      /\ (bucket s i = [] -> cfree s i = 0).
+Proof. exact C02_footprint_main. Qed.
+Print Assumptions C02_footprint.
+
+(* NOT PROVED as a separate theorem (kept visible): C02_owner_only_writes -- every CAccess range with mode write in the
+   callback list of a step is disjoint from every block live throughout the call.  It is a corollary of C01's
+   disjoint_from_bookkeeping (headers, link words) plus C02_realloc_spec (the memcpy destination is the block being
+   returned); the CAccess entries themselves are not observable on the real code except through ASan. *)
+
 Definition c02_cfg : cfg := mkCfg 4096 4096 4096 4 true true 40 104.
+Definition c02_ops : list op :=
+  [Alloc 24 (MapRet 4096); Write 8160 0 24 5; Realloc 8160 30 MapFail; Realloc 8160 10 MapFail; Realloc 8160 60 (MapRet 8192)].
+Example C02_hyps_satisfiable :
+  cfg_ok c02_cfg = true /\ policy_ok c02_cfg c02_ops /\ api_ok c02_cfg c02_ops /\ history_short c02_ops
+  /\ (let s := run c02_cfg c02_ops in
+      contents s 12224 0 = Some 5 /\ contents s 12224 9 = Some 68 /\ contents s 12224 10 = None
+      /\ find_blk 8160 (live s) = None /\ cnum s 2 = 1 /\ cnum s 3 = 1 /\ peak_of s 2 = 1 /\ nlive_of s 2 = 0).
+Proof. unfold policy_ok, api_ok, history_short. vm_compute. repeat split; reflexivity. Qed.
 Example C02_null_cases_nonvacuous :
   let s := run c02_cfg [Alloc 24 (MapRet 4096)] in
   res_of (step c02_cfg s (Realloc 8160 0 MapFail)) = RNull
